@@ -120,3 +120,42 @@ Definition chk_foldpair (s1 s2 : str) (v1 v2 ef nv1 nv2 nfq1 nfq2 : bool) : bool
   Bool.eqb (m_is_valid m1) v1 && Bool.eqb (m_is_valid m2) v2 &&
   (if v1 then Bool.eqb (m_equal_fold m1 m2) ef else true) &&
   Bool.eqb (n_is_valid n1) nv1 && Bool.eqb (n_is_valid n2) nv2 && Bool.eqb (n_is_fq n1) nfq1 && Bool.eqb (n_is_fq n2) nfq2.
+
+(** * histories (Hist.v) *)
+From V Require Import Names.Hist.
+
+Fixpoint eqb_cstate (a b : cstate) : bool :=
+  match a, b with
+  | [], [] => true
+  | (p, d) :: a', (q, e) :: b' => eqb_str p q && (d =? e) && eqb_cstate a' b'
+  | _, _ => false
+  end.
+
+(** one DiskCache instance, the models directory also written directly: after every operation the result and the
+    directory listing (in c.links() order, with content ids) must be the model's *)
+Fixpoint chk_cachehist_from (st : cstate) (ops : list cop) (obs : list (N * N * cstate)) : bool :=
+  match ops, obs with
+  | [], [] => true
+  | op :: ops', (code, v, listing) :: obs' =>
+      let '(st', (c, x)) := c_step st op in
+      (c =? code) && (x =? v) && eqb_cstate st' listing && chk_cachehist_from st' ops' obs'
+  | _, _ => false
+  end.
+Definition chk_cachehist (ops : list cop) (obs : list (N * N * cstate)) : bool := chk_cachehist_from [] ops obs.
+
+(** the legacy handlers on a seeded store: result and the set of stored names with the identity of each model *)
+Definition hentry := (str * str * str * str * N)%type.
+Definition h_of (l : list hentry) : hstate := map (fun x => let '(h, n, m, t, d) := x in (MkM h n m t, d)) l.
+Definition h_same (st : hstate) (l : list hentry) : bool :=
+  (length st =? length l)%nat &&
+  forallb (fun x => let '(h, n, m, t, d) := x in match h_lookup (MkM h n m t) st with Some e => e =? d | None => false end) l.
+Fixpoint chk_handlers_from (st : hstate) (ops : list hop) (obs : list (bool * N * list hentry)) : bool :=
+  match ops, obs with
+  | [], [] => true
+  | op :: ops', (ok, v, listing) :: obs' =>
+      let '(st', (o, x)) := h_step st op in
+      Bool.eqb o ok && (if ok then x =? v else true) && h_same st' listing && chk_handlers_from st' ops' obs'
+  | _, _ => false
+  end.
+Definition chk_handlers (seed : list hentry) (ops : list hop) (obs : list (bool * N * list hentry)) : bool :=
+  chk_handlers_from (h_of seed) ops obs.
